@@ -10,7 +10,7 @@
    returns an operation tree of the engine fragment whose results are that denotation;
    Proofs/GroupSpec.v proves the same of the specification's parser and semantics, and joins them. *)
 From RX Require Import Base.Prelude Base.InvList Tables.Consts Model.Case Model.Op Model.Engine Model.Matcher
-     Model.Compiler Proofs.EngineFacts Proofs.LowerFacts Proofs.PlainPattern.
+     Model.Compiler Proofs.EngineFacts Proofs.LowerFacts Proofs.PlainPattern Proofs.FrameFacts.
 
 (* ---------------------------------------------------------------- grammar trees *)
 Inductive branch :=
@@ -420,13 +420,38 @@ Proof.
   - split; [intros H; exists p; cbn; auto|intros (m & [<-|[]] & H); exact H].
 Qed.
 
+Definition alt_op0 (bs : list op) : op := match bs with [x] => x | _ => OChoice (rev bs) end.
+(* capture numbers start at 1 (the frame property of Proofs/FrameFacts.v needs it) *)
+Let fro (c : option op) : Prop := match c with Some o => framed o | None => True end.
+Lemma framed_all_app (l1 l2 : list op) :
+  (fix all l := match l with [] => True | x :: t => framed x /\ all t end) l1 ->
+  (fix all l := match l with [] => True | x :: t => framed x /\ all t end) l2 ->
+  (fix all l := match l with [] => True | x :: t => framed x /\ all t end) (l1 ++ l2).
+Proof. induction l1 as [|x t IH]; intros H1 H2; [exact H2|]. destruct H1 as [Hx H1]. split; [exact Hx|apply IH; auto]. Qed.
+Lemma framed_as_list a : framed a -> (fix all l := match l with [] => True | x :: t => framed x /\ all t end) (as_list a).
+Proof. intros H. destruct a; cbn [as_list]; try (split; [exact H|exact I]). exact H. Qed.
+Lemma framed_make_sequence a b : framed a -> framed b -> framed (make_sequence a b).
+Proof.
+  intros Ha Hb. rewrite make_sequence_list. cbn [framed]. apply framed_all_app; apply framed_as_list; assumption.
+Qed.
+Lemma push_fr cur o : fro cur -> framed o -> fro (push cur o).
+Proof. destruct cur; cbn [push fro]; intros; [apply framed_make_sequence|]; auto. Qed.
+Lemma framed_choice bs : Forall framed bs -> framed (OChoice bs).
+Proof. intros H. cbn [framed]. induction H as [|x t Hx Ht IH]; [exact I|]. split; [exact Hx|exact IH]. Qed.
+Lemma alt_op_framed bs : Forall framed bs -> bs <> [] -> framed (alt_op0 bs).
+Proof.
+  intros H Hne. destruct bs as [|x [|y t]]; [contradiction| |].
+  - inversion H; auto.
+  - apply framed_choice. apply Forall_rev. exact H.
+Qed.
+
 Lemma good_choice bs : Forall good bs -> good (OChoice bs).
 Proof.
   unfold good. intros H. cbn [simple]. induction H as [|x t Hx Ht IH]; [exact I|]. split; [exact Hx|exact IH].
 Qed.
 
 (* the operation a list of parsed branches becomes *)
-Definition alt_op (bs : list op) : op := match bs with [x] => x | _ => OChoice (rev bs) end.
+Definition alt_op (bs : list op) : op := alt_op0 bs.
 Lemma alt_op_good bs : Forall good bs -> bs <> [] -> good (alt_op bs).
 Proof.
   intros H Hne. destruct bs as [|x [|y t]]; [contradiction| |].
@@ -449,7 +474,8 @@ Definition P_b (b : branch) : Prop :=
     6 * length (show_b b) + 6 <= fuel -> goodo cur ->
     exists r st', branch_loop pat xpath ci single fuel st cur = Ok (r, st')
       /\ idx st' = idx st + length (show_b b) /\ hasbr st' = hasbr st /\ goodo r
-      /\ (forall p q, p <= n -> (In q (Ro r p) <-> exists m, In m (Ro cur p) /\ In q (Db input ci b m))).
+      /\ (forall p q, p <= n -> (In q (Ro r p) <-> exists m, In m (Ro cur p) /\ In q (Db input ci b m)))
+      /\ (1 <= parens st -> fro cur -> fro r /\ parens st <= parens st').
 
 Definition P_a (a : alt) : Prop :=
   ok_a xpath a = true -> forall post st acc f1 f2,
@@ -459,7 +485,8 @@ Definition P_a (a : alt) : Prop :=
       /\ branches_loop pat xpath ci single f2 st1 (o :: acc) = Ok (bs, st')
       /\ idx st' = idx st + length (show_a a) /\ hasbr st' = hasbr st /\ Forall good bs /\ bs <> []
       /\ (forall p q, p <= n -> ((exists x, In x bs /\ In q (R x p))
-                                  <-> (exists x, In x acc /\ In q (R x p)) \/ In q (Da input ci a p))).
+                                  <-> (exists x, In x acc /\ In q (R x p)) \/ In q (Da input ci a p)))
+      /\ (1 <= parens st -> Forall framed acc -> Forall framed bs /\ parens st <= parens st').
 
 (* a run (possibly empty) before a group: parsed into the current term, the loop goes on *)
 Lemma run_prefix cs post st cur fuel : forallb ordinary cs = true ->
@@ -467,11 +494,12 @@ Lemma run_prefix cs post st cur fuel : forallb ordinary cs = true ->
   exists fuel' cur1 st1, fuel <= fuel' + 1 /\ fuel' <= fuel
     /\ branch_loop pat xpath ci single fuel st cur = branch_loop pat xpath ci single fuel' st1 cur1
     /\ idx st1 = idx st + length cs /\ hasbr st1 = hasbr st /\ goodo cur1
-    /\ (forall p q, p <= n -> (In q (Ro cur1 p) <-> exists m, In m (Ro cur p) /\ In q (lit input ci cs m))).
+    /\ (forall p q, p <= n -> (In q (Ro cur1 p) <-> exists m, In m (Ro cur p) /\ In q (lit input ci cs m)))
+    /\ parens st1 = parens st /\ (fro cur -> fro cur1).
 Proof.
   intros Ho (t & ->) Hs Hi Hf Hg. destruct cs as [|c cs].
   - exists fuel, cur, st. split; [lia|]. split; [lia|]. split; [reflexivity|]. split; [cbn [length]; lia|].
-    split; [reflexivity|]. split; [exact Hg|]. intros p q Hp. split.
+    split; [reflexivity|]. split; [exact Hg|]. split; [|split; [reflexivity|auto]]. intros p q Hp. split.
     + intros Hin. exists q. split; auto. rewrite lit_nil; [left; reflexivity|]. eapply Ro_le; eauto.
     + intros (m & Hm & Hq). rewrite lit_nil in Hq by (eapply Ro_le; eauto). destruct Hq as [<-|[]]. exact Hm.
   - destruct fuel as [|[|[|f]]]; try lia.
@@ -484,6 +512,7 @@ Proof.
       rewrite (is_at_hd _ _ _ c_bar Hs), (is_at_hd _ _ _ c_rparen Hs), T8, T5. cbn [negb andb].
       rewrite (piece_run f st c cs (40%N :: t) Ho) by (cbn; auto). cbn [rbind]. reflexivity. }
     split; [reflexivity|]. split; [reflexivity|]. split; [apply push_good; [exact Hg|exact I]|].
+    split; [|split; [reflexivity|intros Hfr; apply push_fr; [exact Hfr|exact I]]].
     intros p q Hp. rewrite push_sem by (auto; exact I). reflexivity.
 Qed.
 
@@ -494,7 +523,7 @@ Proof.
     destruct cs as [|c cs].
     + destruct fuel as [|f]; [lia|]. exists cur, st. cbn [app length] in *.
       split; [apply branch_loop_stop; [exact Hi|rewrite Hs; exact Ht]|].
-      split; [lia|]. split; [reflexivity|]. split; [exact Hg|].
+      split; [lia|]. split; [reflexivity|]. split; [exact Hg|]. split; [|auto].
       intros p q Hp. cbn [Db]. split.
       * intros H. exists q. split; auto. rewrite lit_nil; [left; reflexivity|]. eapply Ro_le; eauto.
       * intros (m & Hm & Hq). rewrite lit_nil in Hq by (eapply Ro_le; eauto). destruct Hq as [<-|[]]. exact Hm.
@@ -512,6 +541,7 @@ Proof.
         - unfold set_idx. cbn [idx]. pose proof (skipn_len_le _ _ _ Hs Hi). lia.
         - unfold set_idx. cbn [idx]. rewrite (skipn_app_len _ _ _ Hs). exact Ht. }
       split; [reflexivity|]. split; [reflexivity|]. split; [apply push_good; [exact Hg|exact I]|].
+      split; [|intros Hp1 Hfr; split; [apply push_fr; [exact Hfr|exact I]|reflexivity]].
       intros p q Hp. rewrite push_sem by (auto; exact I). reflexivity.
   - (* BGrp *) intros cs cap a IHa b' IHb Hok post st cur fuel Hs Hi Ht Hf Hg.
     cbn [ok_b] in Hok. apply andb_true_iff in Hok as [Hok Okb]. apply andb_true_iff in Hok as [Hok Oka].
@@ -529,7 +559,7 @@ Proof.
     { pose proof (skipn_length (idx st) pat) as L. rewrite Hs in L. fold len in L.
       rewrite app_length in L. cbn [length] in L. rewrite !app_length in L. cbn [length] in L. rewrite app_length in L. lia. }
     destruct (run_prefix cs _ st cur fuel Ocs ltac:(eexists; reflexivity) Hs Hi ltac:(lia) Hg)
-      as (fuel1 & cur1 & st1 & Hf1 & Hf1' & Eloop & Hi1 & Hb1 & Hg1 & Sem1).
+      as (fuel1 & cur1 & st1 & Hf1 & Hf1' & Eloop & Hi1 & Hb1 & Hg1 & Sem1 & Hp1 & Fr1).
     rewrite Eloop.
     pose proof (skipn_app_len _ _ _ Hs) as Hs1. rewrite <- Hi1 in Hs1.
     assert (Hi1' : idx st1 <= len) by lia.
@@ -538,7 +568,8 @@ Proof.
     destruct (skipn_step _ _ _ Hs1) as [Hs2 Hlt1].
     assert (Hexpr : exists o st4, parse_expr pat xpath ci single (S f4) false st1 = Ok (o, st4)
               /\ idx st4 = idx st1 + 1 + length opt + length inner + 1 /\ hasbr st4 = hasbr st1 /\ good o
-              /\ (forall p q, p <= n -> (In q (R o p) <-> In q (Da input ci a p)))).
+              /\ (forall p q, p <= n -> (In q (R o p) <-> In q (Da input ci a p)))
+              /\ (1 <= parens st1 -> framed o /\ parens st1 <= parens st4)).
     { rewrite parse_expr_grp_S. cbv zeta. rewrite at_skipn, Hs1. cbn [hd_error]. change (40 =? c_lparen)%N with true. cbv iota.
       assert (Hopen : exists paren group st2,
                 (if Nat.ltb (idx st1 + 2) len && is_at pat (idx st1 + 1) c_qmark && is_at pat (idx st1 + 2) c_colon
@@ -546,7 +577,8 @@ Proof.
                  else Ok (Some true, parens st1,
                           {| idx := S (idx st1); parens := S (parens st1); bmin := bmin st1; bmax := bmax st1;
                              captures := captures st1; hasbr := hasbr st1 |})) = Ok (Some paren, group, st2)
-                /\ paren = cap /\ idx st2 = idx st1 + 1 + length opt /\ hasbr st2 = hasbr st1).
+                /\ paren = cap /\ idx st2 = idx st1 + 1 + length opt /\ hasbr st2 = hasbr st1
+                /\ parens st1 <= parens st2 /\ group = (if cap then parens st1 else O)).
       { destruct cap; subst opt; cbn [app length] in *.
         - (* capturing: the next character is not '?' *)
           assert (Hq : is_at pat (idx st1 + 1) c_qmark = false).
@@ -556,21 +588,21 @@ Proof.
             rewrite (is_at_hd _ _ _ c_qmark Hs2). cbn in Hh.
             destruct Hh as [Ho2|[->|[->| ->]]]; try reflexivity.
             destruct (ordinary_tests c2 Ho2) as (_ & _ & _ & _ & _ & _ & _ & _ & _ & _ & _ & T12 & _). exact T12. }
-          rewrite Hq, andb_false_r. cbn [andb]. eexists _, _, _. split; [reflexivity|]. cbn [idx hasbr]. repeat split; lia.
+          rewrite Hq, andb_false_r. cbn [andb]. eexists _, _, _. split; [reflexivity|]. cbn [idx hasbr parens]. repeat split; lia.
         - (* '(?:' *)
           cbn [orb] in Hcx.
           destruct (skipn_step _ _ _ Hs2) as [Hs3 Hlt2]. replace (idx st1 + 1 + 1) with (idx st1 + 2) in Hs3 by lia.
           rewrite (is_at_hd _ _ _ c_qmark Hs2), (is_at_hd _ _ _ c_colon Hs3).
           change (63 =? c_qmark)%N with true. change (58 =? c_colon)%N with true.
           replace (Nat.ltb (idx st1 + 2) len) with true by (symmetry; apply Nat.ltb_lt; destruct (skipn_step _ _ _ Hs3); lia).
-          cbn [andb]. rewrite Hcx. cbn [negb]. eexists _, _, _. split; [reflexivity|]. unfold adv, set_idx. cbn [idx hasbr]. repeat split; lia. }
-      destruct Hopen as (paren & group & st2 & -> & -> & Hi2 & Hb2). cbn [rbind].
+          cbn [andb]. rewrite Hcx. cbn [negb]. eexists _, _, _. split; [reflexivity|]. unfold adv, set_idx. cbn [idx hasbr parens]. repeat split; lia. }
+      destruct Hopen as (paren & group & st2 & -> & -> & Hi2 & Hb2 & Hp2 & Hgrp). cbn [rbind].
       assert (Hs2' : skipn (idx st2) pat = inner ++ 41%N :: rest ++ post).
       { rewrite Hi2. replace (idx st1 + 1 + length opt) with (idx st1 + length (40%N :: opt)) by (cbn [length]; lia).
         apply (skipn_app_len (idx st1) (40%N :: opt)). cbn [app]. rewrite Hs1. reflexivity. }
       destruct (IHa Oka (41%N :: rest ++ post) st2 [] f4 f4 Hs2' ltac:(lia) ltac:(right; eexists; reflexivity)
                   ltac:(fold inner; lia) ltac:(fold inner; lia) (Forall_nil _))
-        as (o1 & st2' & bs & st3 & E1 & E2 & Hi3 & Hb3 & Gbs & Nbs & Sem).
+        as (o1 & st2' & bs & st3 & E1 & E2 & Hi3 & Hb3 & Gbs & Nbs & Sem & FrA).
       rewrite E1. cbn [rbind]. rewrite E2. cbn [rbind]. fold (alt_op bs). fold inner in Hi3.
       assert (Hs3 : skipn (idx st3) pat = 41%N :: rest ++ post).
       { rewrite Hi3. apply (skipn_app_len _ _ _ Hs2'). }
@@ -580,11 +612,14 @@ Proof.
       assert (SemA : forall p q, p <= n -> (In q (R (alt_op bs) p) <-> In q (Da input ci a p))).
       { intros p q Hp. rewrite (alt_op_sem bs p q Nbs), (Sem p q Hp). split; [intros [(x & [] & _)|H]; exact H|auto]. }
       destruct cap.
-      - eexists _, _. split; [reflexivity|]. unfold adv, set_idx. cbn [idx hasbr]. split; [lia|]. split; [congruence|].
-        split; [|exact SemA]. unfold good. cbn [simple]. split; [apply alt_op_good; auto|discriminate].
-      - eexists _, _. split; [reflexivity|]. unfold adv, set_idx. cbn [idx hasbr]. split; [lia|]. split; [congruence|].
-        split; [apply alt_op_good; auto|exact SemA]. }
-    destruct Hexpr as (og & st4 & Eexpr & Hi4 & Hb4 & Gog & Semg).
+      - eexists _, _. split; [reflexivity|]. unfold adv, set_idx. cbn [idx hasbr parens]. split; [lia|]. split; [congruence|].
+        split; [unfold good; cbn [simple]; split; [apply alt_op_good; auto|discriminate]|]. split; [exact SemA|].
+        intros H1. destruct (FrA ltac:(lia) (Forall_nil _)) as [Fbs Hp3]. subst group. cbn [framed].
+        split; [split; [lia|apply alt_op_framed; auto]|lia].
+      - eexists _, _. split; [reflexivity|]. unfold adv, set_idx. cbn [idx hasbr parens]. split; [lia|]. split; [congruence|].
+        split; [apply alt_op_good; auto|]. split; [exact SemA|].
+        intros H1. destruct (FrA ltac:(lia) (Forall_nil _)) as [Fbs Hp3]. split; [apply alt_op_framed; auto|lia]. }
+    destruct Hexpr as (og & st4 & Eexpr & Hi4 & Hb4 & Gog & Semg & Frg).
     assert (Hs4 : skipn (idx st4) pat = rest ++ post).
     { rewrite Hi4. replace (idx st1 + 1 + length opt + length inner + 1) with (idx st1 + length (40%N :: opt ++ inner ++ [41%N])).
       - apply (skipn_app_len (idx st1) (40%N :: opt ++ inner ++ [41%N])). rewrite Hs1. cbn [app]. f_equal.
@@ -603,8 +638,11 @@ Proof.
     rewrite Hpiece. cbn [rbind]. fold (push cur1 og).
     destruct (IHb Okb post st4 (push cur1 og) (S (S (S f4))) Hs4 ltac:(lia) Ht ltac:(fold rest; lia)
                 (push_good _ _ Hg1 Gog))
-      as (r & st' & E & Hi' & Hb' & Gr & Sem').
+      as (r & st' & E & Hi' & Hb' & Gr & Sem' & Fr').
     exists r, st'. split; [exact E|]. fold rest in Hi'. split; [lia|]. split; [congruence|]. split; [exact Gr|].
+    split.
+    2:{ intros H1 Hfr. destruct (Frg ltac:(lia)) as [Fog Hp4].
+        destruct (Fr' ltac:(lia) (push_fr _ _ (Fr1 Hfr) Fog)) as [Fr Hp']. split; [exact Fr|lia]. }
     intros p q Hp. rewrite (Sem' p q Hp). cbn [Db]. split.
     + intros (m & Hm & Hq). apply push_sem in Hm; auto. destruct Hm as (m1 & Hm1 & Hm).
       apply (Sem1 p m1 Hp) in Hm1. destruct Hm1 as (m0 & Hm0 & Hm1).
@@ -619,7 +657,7 @@ Proof.
   - (* AOne *) intros b IHb Hok post st acc f1 f2 Hs Hi Ht Hf1 Hf2 Hacc. cbn [show_a ok_a] in *.
     destruct f1 as [|f1]; [lia|]. destruct f2 as [|f2]; [lia|].
     assert (Htb : term_b post) by (destruct Ht as [->|(t & ->)]; [left; auto|right; eauto]).
-    destruct (IHb Hok post st None f1 Hs Hi Htb ltac:(lia) I) as (r & st1 & E & Hi1 & Hb1 & Gr & Sem).
+    destruct (IHb Hok post st None f1 Hs Hi Htb ltac:(lia) I) as (r & st1 & E & Hi1 & Hb1 & Gr & Sem & Frb).
     set (o := match r with Some c => c | None => ONothing end).
     exists o, st1, (o :: acc), st1. rewrite parse_branch_S, E. cbn [rbind]. split; [reflexivity|].
     assert (Hs1 : skipn (idx st1) pat = post) by (rewrite Hi1; apply (skipn_app_len _ _ _ Hs)).
@@ -630,6 +668,9 @@ Proof.
     split; [exact Hi1|]. split; [exact Hb1|].
     assert (Go : good o) by (subst o; destruct r; [exact Gr|exact I]).
     split; [constructor; auto|]. split; [discriminate|].
+    split.
+    2:{ intros H1 Hacc'. destruct (Frb H1 I) as [Fr Hp']. split; [|exact Hp'].
+        constructor; [|exact Hacc']. subst o. destruct r; [exact Fr|exact I]. }
     intros p q Hp.
     assert (So : In q (R o p) <-> In q (Db input ci b p)).
     { subst o. pose proof (Sem p q Hp) as S0. destruct r as [c|]; cbn [Ro] in S0; [|change (R ONothing p) with [p]]; rewrite S0;
@@ -643,14 +684,14 @@ Proof.
     destruct f1 as [|f1]; [lia|]. destruct f2 as [|f2]; [lia|].
     rewrite <- app_assoc in Hs. cbn [app] in Hs.
     destruct (IHb Okb (124%N :: show_a a' ++ post) st None f1 Hs Hi ltac:(right; eexists; left; reflexivity) ltac:(lia) I)
-      as (r & st1 & E & Hi1 & Hb1 & Gr & Sem).
+      as (r & st1 & E & Hi1 & Hb1 & Gr & Sem & Frb).
     set (o := match r with Some c => c | None => ONothing end).
     assert (Hs1 : skipn (idx st1) pat = 124%N :: show_a a' ++ post) by (rewrite Hi1; apply (skipn_app_len _ _ _ Hs)).
     destruct (skipn_step _ _ _ Hs1) as [Hs2 Hlt1].
     assert (Go : good o) by (subst o; destruct r; [exact Gr|exact I]).
     destruct (IHa Oka post (adv 1 st1) (o :: acc) f2 f2 ltac:(unfold adv, set_idx; cbn [idx]; exact Hs2)
                 ltac:(unfold adv, set_idx; cbn [idx]; lia) Ht ltac:(lia) ltac:(lia) ltac:(constructor; auto))
-      as (o2 & st2 & bs & st' & E1 & E2 & Hi' & Hb' & Gbs & Nbs & Sem2).
+      as (o2 & st2 & bs & st' & E1 & E2 & Hi' & Hb' & Gbs & Nbs & Sem2 & FrA).
     exists o, st1, bs, st'. rewrite parse_branch_S, E. cbn [rbind]. split; [reflexivity|]. split.
     { rewrite branches_loop_S. fold len.
       replace (Nat.ltb (idx st1) len) with true by (symmetry; apply Nat.ltb_lt; exact Hlt1).
@@ -658,6 +699,11 @@ Proof.
       rewrite E1. cbn [rbind]. exact E2. }
     unfold adv, set_idx in Hi', Hb'. cbn [idx hasbr] in Hi', Hb'.
     split; [lia|]. split; [congruence|]. split; [exact Gbs|]. split; [exact Nbs|].
+    split.
+    2:{ intros H1 Hacc'. destruct (Frb H1 I) as [Fr Hp1].
+        assert (Fo : framed o) by (subst o; destruct r; [exact Fr|exact I]).
+        unfold adv, set_idx in FrA. cbn [parens] in FrA.
+        destruct (FrA ltac:(lia) ltac:(constructor; auto)) as [Fbs Hp2]. split; [exact Fbs|lia]. }
     intros p q Hp.
     assert (So : In q (R o p) <-> In q (Db input ci b p)).
     { subst o. pose proof (Sem p q Hp) as S0. destruct r as [c|]; cbn [Ro] in S0; [|change (R ONothing p) with [p]]; rewrite S0;
@@ -671,11 +717,12 @@ Qed.
 Theorem parse_expr_grammar a : ok_a xpath a = true -> pat = show_a a ->
   exists top st', parse_expr pat xpath ci single (8 * len + 16) true st_init = Ok (top, st')
     /\ idx st' = len /\ hasbr st' = false /\ good top
-    /\ (forall p q, p <= n -> (In q (R top p) <-> In q (Da input ci a p))).
+    /\ (forall p q, p <= n -> (In q (R top p) <-> In q (Da input ci a p)))
+    /\ framed top.
 Proof.
   intros Hok Hpat. destruct model_parses as [_ PA].
   assert (Hl : len = length (show_a a)) by (unfold len; rewrite Hpat; reflexivity).
-  destruct (PA a Hok [] st_init [] (8 * len + 15) (8 * len + 15)) as (o1 & st1 & bs & st' & E1 & E2 & Hi & Hb & Gbs & Nbs & Sem).
+  destruct (PA a Hok [] st_init [] (8 * len + 15) (8 * len + 15)) as (o1 & st1 & bs & st' & E1 & E2 & Hi & Hb & Gbs & Nbs & Sem & FrA).
   - cbn [idx st_init skipn]. rewrite app_nil_r. exact Hpat.
   - cbn. lia.
   - left. reflexivity.
@@ -687,6 +734,8 @@ Proof.
     cbn [idx st_init] in Hi. split; [lia|]. split; [exact Hb|].
     assert (Ga : good (alt_op bs)) by (apply alt_op_good; auto).
     split; [apply good_make_sequence; [exact Ga|exact I]|].
+    split.
+    2:{ destruct (FrA ltac:(cbn; lia) (Forall_nil _)) as [Fbs _]. apply framed_make_sequence; [apply alt_op_framed; auto|exact I]. }
     intros p q Hp. rewrite (R_make_sequence (alt_op bs) OEnd p q Ga I).
     split.
     + intros (m & Hm & [<-|[]]). apply (alt_op_sem bs p m Nbs) in Hm. apply (Sem p m Hp) in Hm.
